@@ -139,10 +139,25 @@ RECURSIVE LogAll(_, _, _)
 LogAll(m, log, C) == IF log = <<>> THEN m ELSE LogAll(LogOne(m, Head(log), C), Tail(log), C)
 
 (* --- reference check: every subscription's log equals the documented sequence --- *)
+(* the AST index of the share / publish operator in the chain below x (0 if none) *)
+RECURSIVE ShareIn(_)
+ShareIn(x) == IF x = 0 THEN 0
+              ELSE IF Op(x) \in {"share", "publish"} THEN x
+              ELSE IF Op(x) \in RefUnaryOps THEN ShareIn(S1(x)) ELSE 0
+
+(* share(): what a subscriber that joins after EVERY earlier subscriber of the shared observable has left receives is not    *)
+(* fixed by the property (the pinned code keeps the old connection -- finding F13; reconnecting to the source, as a repair of *)
+(* F13 would, is just as good): such a subscription is not compared with the reference                                      *)
+AfterAllLeft(m, h) ==
+  LET sx == ShareIn(m.hroot[h])
+      prev == {i \in 1..(h - 1) : m.hroot[i] > 0 /\ ShareIn(m.hroot[i]) = sx} IN
+  /\ sx > 0 /\ Op(sx) = "share" /\ prev # {}
+  /\ \A i \in prev : GetI(m.hend, i) > 0 /\ m.hend[i] <= m.h0[h] + 1
+
 RefCheck(m) ==
   \A p \in 1..m.np :
      LET h == GetI(m.ph, p) IN
-     (h > 0 /\ m.hroot[h] > 0 /\ Op(m.hroot[h]) # "group_by") =>
+     (h > 0 /\ m.hroot[h] > 0 /\ Op(m.hroot[h]) # "group_by" /\ ~AfterAllLeft(m, h)) =>
         LET got == GetS(m.plog, p)
             (* an unsubscribed subscription receives what was documented up to the unsubscription *)
             hi == IF GetI(m.hend, h) > 0 THEN m.hend[h] - 1 ELSE Len(m.g) IN
@@ -355,12 +370,6 @@ C08Check(m, o) ==
               /\ IsPrefixSeq(got, want)
               /\ (live /\ o.live = 0) => got = want
          [] OTHER -> TRUE
-
-(* the AST index of the share / publish operator in the chain below x (0 if none) *)
-RECURSIVE ShareIn(_)
-ShareIn(x) == IF x = 0 THEN 0
-              ELSE IF Op(x) \in {"share", "publish"} THEN x
-              ELSE IF Op(x) \in RefUnaryOps THEN ShareIn(S1(x)) ELSE 0
 
 (* --- one step --- *)
 MonStep(m0, step, C) ==
